@@ -345,7 +345,7 @@ def corpus() -> list[dict[str, Any]]:
                    {"logs": [L("z")], "act": {"emit_finish": {"id": 5, "rows": 60, "meta": {"a": "b"}}}, "post": [L("pz")]}]},
         {"name": "p", "kind": "producer", "header": False, "init_logs": [], "init": "ok",
          "steps": [E({"id": 1, "rows": 200}), E({"id": 2, "rows": 200}), E({"id": 3, "rows": 200}),
-                   {"logs": [L("lost")], "act": {"raise": {"cls": "ValueError", "arg": "mid"}}, "post": []}]},
+                   {"logs": [L("before-failure")], "act": {"raise": {"cls": "ValueError", "arg": "mid"}}, "post": []}]},
         {"name": "p", "kind": "producer", "header": False, "init_logs": [L("only")], "init": "ok", "steps": []},
         {"name": "p", "kind": "producer", "header": False, "init_logs": [], "init": "ok",
          "steps": [E({"id": k, "rows": 1}) for k in range(1, 9)]},
@@ -364,7 +364,7 @@ def step_kinds(s: dict[str, Any]) -> list[str]:
     if act == "finish":
         return ["log"] * (len(s.get("logs", [])) + len(s.get("post", [])))
     if act == "nothing" or (isinstance(act, dict) and "raise" in act):
-        return ["err"]
+        return ["log"] * len(s.get("logs", [])) + ["err"]      # the failing call's logs are delivered before the error
     return ["log"] * len(s.get("logs", [])) + ["data"] + ["log"] * len(s.get("post", []))
 
 
@@ -447,18 +447,16 @@ def reference(ctx: Any, m: dict[str, Any], desc: dict[str, Any]) -> dict[str, An
     # sizes must be a function of the batch's content (the model's `sz : Item → Nat`)
     table: dict[str, int] = {}
     for s, zs in zip(m["steps"], sizes):
-        it_keys = []
         act = s["act"]
-        for lg in s.get("logs", []) if step_kinds(s) != ["err"] else []:
-            it_keys.append("log:" + json.dumps(lg, sort_keys=True))
-        if step_kinds(s) == ["err"]:
-            it_keys = ["err:" + json.dumps(act, sort_keys=True)]
-        elif act != "finish":
-            b = act.get("emit") or act.get("emit_finish")
-            it_keys.append("data:" + json.dumps(b, sort_keys=True))
-        if step_kinds(s) != ["err"]:
-            for lg in s.get("post", []):
-                it_keys.append("log:" + json.dumps(lg, sort_keys=True))
+        failing = act == "nothing" or (isinstance(act, dict) and "raise" in act)
+        it_keys = ["log:" + json.dumps(lg, sort_keys=True) for lg in s.get("logs", [])]
+        if failing:
+            it_keys.append("err:" + json.dumps(act, sort_keys=True))
+        else:
+            if act != "finish":
+                b = act.get("emit") or act.get("emit_finish")
+                it_keys.append("data:" + json.dumps(b, sort_keys=True))
+            it_keys += ["log:" + json.dumps(lg, sort_keys=True) for lg in s.get("post", [])]
         for kk, z in zip(it_keys, zs):
             if z and table.setdefault(kk, z) != z:
                 ctx.note("size_not_function_of_content", kk[:80])
